@@ -10,8 +10,10 @@ so worlds of one batch converge at different iterations.
 Oracle (integer / bit exact, no tolerance): let n*_s be the iteration count of situation s in an unlimited
 (L = 200) solo run.  With limit L: solver_niter = min(L, n*_s) <= L, ITERATIONS overflow bit <=> L < n*_s;
 for L >= n*_s the result equals the unlimited result bit for bit (the first iterations are identical);
-world w of any batch under either loop form equals the solo run of its situation with the same L bit for bit
-(qacc, qfrc_constraint, efc.force, efc.state, Ma, niter, overflow) - iterating on for other worlds is transparent.
+world w of any mixed batch under either loop form equals the same world of the homogeneous batch (s,s,s) of its
+situation bit for bit (qacc, qfrc_constraint, efc.force, efc.state, Ma, niter, overflow) - iterating on for other
+worlds is transparent; the homogeneous batch has identical worlds and equals the solo run (niter / bit exactly;
+floats bit for bit, reported separately as "batch size changes the result").
 """
 
 import itertools
@@ -175,18 +177,40 @@ def execute(scn):
   for s in "ABC":
     k = _same(solo[True, s], solo[False, s])
     c.true(f"solo {s} L={L}: while-loop form == fixed-loop form", k is None, f"differs in {k}", vkey=f"loop_forms_differ:{cfg}")
+
+  def show(x):
+    return x if np.isscalar(x) or isinstance(x, (bool, int)) else x[:4]
+
+  # homogeneous batches (s,s,s): all worlds converge together.  They are the reference for the mixed batches, so that
+  # "other worlds keep iterating" is isolated from "the batch has another size than the solo run".
+  homo = {}
+  for gc in (True, False):
+    form = "while" if gc else "fixed"
+    for s in "ABC":
+      res = _run(mjw, models[gc], mjm, st, [s, s, s])
+      homo[gc, s] = res
+      for w in (1, 2):
+        k = _same(res[w], res[0])
+        c.true(f"batch {s}{s}{s} L={L} {form}: world {w} == world 0", k is None, f"differs in {k}", vkey=f"identical_worlds_differ:{cfg}:{form}")
+      k = _same(res[0], solo[gc, s])
+      if k in ("niter", "bit", "nefc"):
+        c.fail(f"batch_termination_differs_from_solo:{cfg}:{form}", f"batch {s}{s}{s} L={L} tol={scn['tol']} {form}: {k} {res[0][k]} vs solo {solo[gc, s][k]}")
+      elif k is not None:
+        c.fail(
+          f"batch_size_changes_result:{cfg}",
+          f"situation {s} L={L} tol={scn['tol']} {form}: world 0 of a 3-world batch of identical worlds differs from the 1-world run in {k}: {show(res[0][k])} vs {show(solo[gc, s][k])}",
+        )
   for assign in itertools.product("ABC", repeat=3):
     for gc in (True, False):
       form = "while" if gc else "fixed"
-      res = _run(mjw, models[gc], mjm, st, list(assign))
+      res = _run(mjw, models[gc], mjm, st, list(assign)) if len(set(assign)) > 1 else homo[gc, assign[0]]
       nevals += 1
       for w, s in enumerate(assign):
-        k = _same(res[w], solo[gc, s])
+        k = _same(res[w], homo[gc, s][w])
         if k is not None:
-          a, b = res[w][k], solo[gc, s][k]
           c.fail(
-            f"batch_world_differs_from_solo:{cfg}:{form}",
-            f"assignment {''.join(assign)} L={L} tol={scn['tol']} {form}: world {w} (situation {s}, n*={nstar[s]}) differs from its solo run in {k}: {a if np.isscalar(a) or isinstance(a, (bool, int)) else a[:4]} vs {b if np.isscalar(b) or isinstance(b, (bool, int)) else b[:4]}",
+            f"other_worlds_change_result:{cfg}:{form}",
+            f"assignment {''.join(assign)} L={L} tol={scn['tol']} {form}: world {w} (situation {s}, n*={nstar[s]}) differs from the same world of the batch {s}{s}{s} in {k}: {show(res[w][k])} vs {show(homo[gc, s][w][k])}",
           )
         c.nchecked += 1
   nontrivial = len(set(nstar.values())) > 1 and any(ref[s]["nefc"] > 0 for s in "ABC")
